@@ -984,6 +984,12 @@ def conformance(g, client, qual, rng, tier):
     yield
     g.ops.append({"op": "dump", "c": client, "sol": victim["sol"], "dev": "sim", "bufsize": rng.choice([1, 64, 8192])})
     yield
+    if not fixed_n and fam.gran != "mader":
+        # back to back on this solver: a request, then the very same ndarray object refilled in place (x += dx) and asked
+        # again at the same time -- a solver that remembered the caller's array compares it with itself
+        first = g.call_op(client, st, pts, thex, layout, cont="nd")
+        g.call_op(client, st, pts + 0.03125 * (1.0 + abs(pts)), thex, layout, cont="nd", buf=first["buf"])
+        yield
     if victim.get("cont") in ("nd", "strided", "fortran") and not fixed_n and fam.gran != "mader":
         # ... then refills the very same ndarray object with other points (x += dx) and asks again, same time:
         # the positions returned must be the ones now in the array
